@@ -5,7 +5,7 @@ trace queries."""
 import ast
 from typing import Dict, List, Optional
 
-from .engine import Config, World, all_configs, BINARIZER_VAL
+from .engine import Config, World, SimWorld, all_configs, BINARIZER_VAL
 from .model import AnalysisError, Program
 from .values import Ev, Val
 
@@ -77,10 +77,23 @@ class Facts:
                 self.ctx.analysed["configs"].add(config.name)
         return w
 
-    def trace(self, config: Config, label: str) -> Ev:
-        k = (config.name, label)
+    def sim_world(self, config: Config) -> SimWorld:
+        k = "sim:" + config.name
+        w = self._worlds.get(k)
+        if w is None:
+            w = SimWorld(self.prog, config, self.forget)
+            self._worlds[k] = w
+            if self.ctx is not None:
+                self.ctx.analysed["configs"].add(k)
+        return w
+
+    def sim_configs(self) -> List[Config]:
+        return [c for c in all_configs() if c.np in ("Radius", "KNearest", "LSHNearest")]
+
+    def trace(self, config: Config, label: str, sim=False) -> Ev:
+        k = (("sim:" if sim else "") + config.name, label)
         if k not in self._traces:
-            w = self.world(config)
+            w = self.sim_world(config) if sim else self.world(config)
             for lab, method, args in w.standard_entries():
                 if lab == label:
                     root = w.run(method, args)
@@ -105,9 +118,9 @@ class Facts:
         w.init_trace.a.setdefault("config", config.name)
         return w.init_trace
 
-    def focus(self, config: Config, root: Ev):
+    def focus(self, config: Config, root: Ev, sim=False):
         """Make the engine's heap the one at the end of this run (object lookups for its events)."""
-        w = self.world(config)
+        w = self.sim_world(config) if sim else self.world(config)
         w.eng.heap = root.a["heap"]
         return w
 
